@@ -75,6 +75,9 @@ class Run:
     def _register(self, hid):
         ev, prio, hkw, cond, _body, _r = self.specs[hid]
         name = ev + ("{%s}" % cond if cond else "")
+        if not isinstance(prio, int):
+            self.funcs[hid].relative_priority = prio[1]
+            prio = prio[0]
         key = self.em.add_handler(name, self.funcs[hid], priority=prio, **dict(hkw))
         self.keys.setdefault(hid, []).append(key)
         self.trace.append(("reg", hid))
@@ -351,10 +354,11 @@ def judge(prog, trace, posts):
         if p["kind"] == "bool":
             for pos, hid, kw in mycalls:
                 if any(a[0] == "ret_false" for a in handlers[hid][4]):
-                    stop_prio = (pos, handlers[hid][1])
+                    stop_prio = (pos, eff(handlers[hid][1]))
                     break
         for hid, spec in enumerate(handlers):
             hev, prio, hkw, cond, body, _ = spec
+            prio = eff(prio)
             n = called.get(hid, 0)
             if hev != ev:
                 if n:
@@ -381,7 +385,7 @@ def judge(prog, trace, posts):
                     if by is None:
                         excused += 99
                         continue
-                    by_prio = handlers[by[1]][1]
+                    by_prio = eff(handlers[by[1]][1])
                     if by_prio >= prio:
                         excused += 99
                 if stop_prio is not None and stop_prio[1] >= prio:
@@ -398,7 +402,7 @@ def judge(prog, trace, posts):
                                     "its turn) was invoked %d time(s) instead of %d" %
                                     (hid, ev, pid, n, count_at_begin)))
         # M2 priority order
-        prios = [handlers[hid][1] for _, hid, _ in mycalls]
+        prios = [eff(handlers[hid][1]) for _, hid, _ in mycalls]
         if any(prios[i] < prios[i + 1] for i in range(len(prios) - 1)):
             out.append(("M2", "dispatch of %s ran priorities %r (not descending)" % (ev, prios)))
         # M3 kwargs
@@ -491,6 +495,25 @@ def family_registry(nh, prios=(1, 2, 3)):
                     yield (hs, (), roots, "plain")
 
 
+def eff(prio):
+    """Effective priority: a (nominal, relative) pair is a handler carrying a relative_priority attribute (as the
+    @event_handler(N) decorator of device control methods gives it); add_handler adds the two."""
+    return prio if isinstance(prio, int) else prio[0] + prio[1]
+
+
+def family_relative(nh=3):
+    """Handlers with a relative priority, registered in every order and with prior registration histories."""
+    ops = [(op, j) for op in ("add", "rm_key") for j in range(nh)]
+    heads = [("a", p, r) for p in (1, 2, (1, 2), (2, 2), (1, 1)) for r in (True, False)]
+    for head in itertools.product(heads, repeat=nh):
+        if not any(not isinstance(h[1], int) for h in head):
+            continue
+        hs = tuple((h[0], h[1], (), None, (), h[2]) for h in head)
+        for n in range(0, 3):
+            for pre in itertools.product(ops, repeat=n):
+                yield (hs, pre, (("post", "a", (), True),), "plain")
+
+
 def family_history(nh=3):
     """Prior histories of registrations and removals before the post."""
     ops = [(op, j) for op in ("add", "rm_key", "rm_method") for j in range(nh)]
@@ -540,6 +563,7 @@ def programs(tier):
         yield from family_forest(2, ("post", "post_cb"), 2)
         yield from family_registry(3)
         yield from family_history(2)
+        yield from family_relative(2)
         yield from family_kwargs()
         yield from family_kinds(2)
         yield from with_contexts(family_forest(2, ("post", "post_cb"), 1),
@@ -550,6 +574,7 @@ def programs(tier):
         yield from family_forest(3, ("post", "post_cb"), 2, total_actions=4)
         yield from family_registry(4)
         yield from family_history(3)
+        yield from family_relative(3)
         yield from family_kwargs()
         yield from family_kinds(3)
         yield from with_contexts(family_forest(3, ("post", "post_cb"), 1),
